@@ -135,8 +135,55 @@ func nilness(v ssa.Value) int {
 		return nilness(x.X)
 	case *ssa.ChangeInterface:
 		return nilness(x.X)
+	case *ssa.UnOp:
+		// a package-level sentinel such as `var errExpired = errors.New("...")`: every store to it anywhere in
+		// its package stores a non-nil value
+		if g, ok := x.X.(*ssa.Global); ok && x.Op == token.MUL {
+			return globalNilness(g)
+		}
 	}
 	return 0
+}
+
+var globalNilMemo = map[*ssa.Global]int{}
+
+func globalNilness(g *ssa.Global) int {
+	if r, ok := globalNilMemo[g]; ok {
+		return r
+	}
+	globalNilMemo[g] = 0
+	res, n := +1, 0
+	if g.Pkg != nil {
+		var scan func(f *ssa.Function)
+		scan = func(f *ssa.Function) {
+			for _, b := range f.Blocks {
+				for _, in := range b.Instrs {
+					if st, ok := in.(*ssa.Store); ok && st.Addr == ssa.Value(g) {
+						n++
+						if nilness(Unwrap(st.Val)) != +1 {
+							res = 0
+						}
+					}
+				}
+			}
+			for _, a := range f.AnonFuncs {
+				scan(a)
+			}
+		}
+		for _, m := range g.Pkg.Members {
+			if f, ok := m.(*ssa.Function); ok {
+				scan(f)
+			}
+		}
+		if init := g.Pkg.Func("init"); init != nil {
+			scan(init)
+		}
+	}
+	if n == 0 {
+		res = 0
+	}
+	globalNilMemo[g] = res
+	return res
 }
 
 // callResult returns (call, index) if v is the result (or i-th result) of a call instruction.
